@@ -27,6 +27,29 @@ fn c17_linecount() {
         assert!(r == Some(line_feeds(n, &lens, &data)), "OBL C17.linecount: a readable file has exactly the number of its line feeds");
     }
 }
+// the same for is_shebang: true exactly for a file that can be opened, whose first two bytes can be read, and are `#!`;
+// an unreadable or shorter file is simply not a script (false), whatever a partial read delivered
+#[kani::proof]
+#[kani::unwind(6)]
+fn c17_shebang() {
+    kani::cover!(true);
+    let n: usize = kani::any(); kani::assume(n <= 3);
+    let lens: [usize; 3] = kani::any(); kani::assume(lens[0] >= 1 && lens[0] <= 3 && lens[1] >= 1 && lens[1] <= 3 && lens[2] >= 1 && lens[2] <= 3);
+    let data: [[u8; 3]; 3] = kani::any();
+    let open_fails: bool = kani::any();
+    let fail_at: usize = kani::any();
+    script(n, lens, data, open_fails, fail_at);
+    let r = is_shebang(&PathBuf);
+    // the first two bytes of the file and the chunk in which the second one lies
+    let total = (if n > 0 { lens[0] } else { 0 }) + (if n > 1 { lens[1] } else { 0 }) + (if n > 2 { lens[2] } else { 0 });
+    let second_chunk = if lens[0] >= 2 { 0 } else { 1 };
+    let first = data[0][0];
+    let second = if lens[0] >= 2 { data[0][1] } else { data[1][0] };
+    let readable = !open_fails && total >= 2 && fail_at > second_chunk;
+    kani::cover!(readable && lens[0] == 1 && first == b'#' && second == b'!', "a `#!` split over two reads is among the cases");
+    if readable { assert!(r == (first == 0x23 && second == 0x21), "OBL C17.shebang: a file whose first two bytes can be read is a script exactly when they are #!"); }
+    else { assert!(!r, "OBL C17.shebang: a file that cannot be opened, read, or has fewer than two bytes is not a script"); }
+}
 #[kani::proof]
 #[kani::unwind(6)]
 fn canary_linecount_must_fail() {
